@@ -17,6 +17,7 @@ import Golib.Udp.Pool
 import Golib.Udp.Mask
 import Golib.Udp.WFB
 import Golib.Udp.Gates
+import Golib.Udp.ProcessThm
 
 namespace C07
 open Udp Udp.Layout Prim
@@ -200,10 +201,16 @@ theorem pool_tables_model :
 
 /-! ### masking -/
 
-/-- for every connection string built from plain `key=value` tokens (no `=`, `;`, white space in
-    keys and values; either may be empty) separated by blanks or semicolons in any mixture, and
-    every version of a family whose Process() masks (Go `> 50000`, PHP `≤ 20000`), no token of the
-    result has the key `password` with a value other than `#` -/
+/-- Exactly which strings are covered: `renderFlat t rest` = tokens `key=value` joined by blanks (32)
+    or semicolons (59) in any mixture, where every key and every value (`PlainTok`)
+      * contains no blank, no `;`, no `=`, and
+      * neither begins nor ends with a white-space character in the sense of `strings.TrimSpace`
+        (U+0009–000D, U+0020, U+0085, U+00A0, U+1680, U+2000–200A, U+2028, U+2029, U+202F, U+205F, U+3000);
+    everything else is allowed: arbitrary UTF-8, invalid bytes, white space other than the blank in
+    the middle, empty keys, empty values, any number of tokens, repeated keys.
+    For every such string and every version of a family whose Process() masks (Go `> 50000`,
+    PHP `≤ 20000`), no token of the result has the key `password` with a value other than `#`.
+    (Without the two conditions the statement is false: `"foo password =secret"` ↦ `"foo password=secret"`.) -/
 theorem mask_password (ver : Int) (t : Tok) (rest : List (Nat × Tok)) (ht : PlainTok t)
     (hrest : ∀ cu ∈ rest, (cu.1 = 32 ∨ cu.1 = 59) ∧ PlainTok cu.2) (hv : masksAt ver = true) :
     leakFree (processDbc ver (renderFlat t rest)) := Udp.mask_password ver t rest ht hrest hv
@@ -215,6 +222,85 @@ theorem mask_families (ver : Int) (h : (50100 ≤ ver ∧ ver ≤ 50199) ∨ (10
   simp only [Bool.or_eq_true, decide_eq_true_eq]
   omega
 
+/-! ### Process(): the derived fields of every pack type
+
+`PackT.process` (Golib.Udp.Process) models `Process()` of all 19 types as a list of derivations
+(targets, fields read, family gate, function); `none` = the call panics.  It is compared with the
+implementation field by field (driver op `Q`, harness stage `proc`). -/
+
+/-- Process() changes nothing but its derived fields (the wire fields other than Dbc / Sql stay) -/
+theorem process_only_targets (t : PackT) (ver : Int) (st st' : Rec) (f : String)
+    (h : t.process ver st = some st') (hf : f ∉ processTargets t) : st' f = st f :=
+  Udp.process_only_targets t ver st st' f h hf
+
+/-- Process() of every pack type other than UdpActiveStackPack never panics, at any version, on any pack -/
+theorem process_total (t : PackT) (ht : t ∈ allPacks) (hn : t.name ≠ "UdpActiveStackPack") (ver : Int) (st : Rec) :
+    (t.process ver st).isSome = true := Udp.process_total t ht hn ver st
+
+/-- UdpActiveStackPack.Process() panics exactly when Data has fewer than three ", "-separated parts
+    (totality of decoders is C04's subject; recorded here because it bounds what ToPack can be fed) -/
+theorem process_activeStack_panics (ver : Int) (st : Rec) :
+    (UdpActiveStackPack.process ver st).isSome = decide (3 ≤ (splitCommaSp (st "Data").asStr).length) :=
+  Udp.process_activeStack_panics ver st
+
+/-- Dbc after Process() of an SQL / SQL-param / DB-connection pack is `processDbc ver Dbc`, for every version -/
+theorem process_dbc (t : PackT) (ht : t = UdpTxSqlPack ∨ t = UdpTxSqlParamPack ∨ t = UdpTxDbcPack)
+    (ver : Int) (st : Rec) (hd : ∃ b, st "Dbc" = .str b) :
+    ∃ st', t.process ver st = some st' ∧ st' "Dbc" = .str (processDbc ver (st "Dbc").asStr) :=
+  Udp.process_dbc t ht ver st hd
+
+/-- **Process() never leaves a password value**: for the three pack types that carry a connection
+    string, every version of a masking family (Go, PHP) and every connection string of the grammar,
+    the pack after Process() has no token `password=<value other than #>` in Dbc -/
+theorem process_no_password (t : PackT) (ht : t = UdpTxSqlPack ∨ t = UdpTxSqlParamPack ∨ t = UdpTxDbcPack)
+    (ver : Int) (st : Rec) (tok : Tok) (rest : List (Nat × Tok)) (htok : PlainTok tok)
+    (hrest : ∀ cu ∈ rest, (cu.1 = 32 ∨ cu.1 = 59) ∧ PlainTok cu.2) (hv : masksAt ver = true)
+    (hd : st "Dbc" = .str (renderFlat tok rest)) :
+    ∃ st', t.process ver st = some st' ∧ ∃ b, st' "Dbc" = .str b ∧ leakFree b :=
+  Udp.process_no_password t ht ver st tok rest htok hrest hv hd
+
+/-- the caller's URL hash (sent as decimal text in McallerUrl) is restored by Process() wherever the
+    code parses it: Go, .NET ≥ 30102, Python, PHP ≥ 10102 -/
+theorem process_caller_hash (ver : Int) (st : Rec) (v : Int) (hv : inRange 4 v) (ha : endHashActive ver = true)
+    (hu : st "McallerUrl" = .str (showInt v)) :
+    ∃ st', UdpTxEndPack.process ver st = some st' ∧ st' "McallerUrlHash" = .int v :=
+  Udp.process_caller_hash ver st v hv ha hu
+
+/-- five int16 activity counters come back from Process() of UdpActiveStatsPack (with
+    `udp_roundtrip_UdpActiveStatsPack`: Write ↦ Read ↦ Process restores ActiveStats) -/
+theorem process_active_stats (ver : Int) (st : Rec) (xs : List Int) (hl : xs.length = 5)
+    (hx : ∀ x ∈ xs, inRange 2 x) (hd : st "Data" = .str (joinInts 44 xs)) :
+    ∃ st', UdpActiveStatsPack.process ver st = some st' ∧ st' "ActiveStats" = .ints xs :=
+  Udp.process_active_stats ver st xs hl hx hd
+
+/-- Process() of every type reads struct fields only -/
+theorem process_reads_fields : ∀ t ∈ allPacks, readsInFields t = true := by decide
+
+/-- **no residue through Process()** (the harness stage `pool2`): in any CreatePack / ClosePack
+    history with arbitrary released packs (filled, decoded into, processed any number of times), a
+    handed-out pack that is then used — decode a writer's bytes or assign fields, then Process() —
+    ends, on every struct field (derived fields included), exactly as a never-used pack (Clear()
+    constants or constructor constants) put to the same use; both panic or neither -/
+theorem pool_process_no_residue (t : PackT) (ht : t ∈ allPacks) (evs : List PoolEv) (u : Use) :
+    ∀ vq ∈ (runPool t evs []).2,
+      (match u.run t vq.1 vq.2, u.run t vq.1 (t.clearedRec.set "Ver" (.int vq.1)) with
+        | none, none => True
+        | some a, some b => ∀ f ∈ t.fieldNames, a f = b f
+        | _, _ => False) ∨
+      (match u.run t vq.1 vq.2, u.run t vq.1 (t.freshRec.set "Ver" (.int vq.1)) with
+        | none, none => True
+        | some a, some b => ∀ f ∈ t.fieldNames, a f = b f
+        | _, _ => False) :=
+  Udp.pool_process_no_residue t (clear_total t ht) (process_reads_fields t ht) evs u
+
+example : processTargets UdpTxEndPack = ["ServiceURL", "McallerUrlHash"] := by decide
+example : processTargets UdpTxErrorPack = [] := by decide
+example : endHashActive 30101 = false ∧ endHashActive 30102 = true ∧ endHashActive 40001 = false ∧ endHashActive 10101 = false := by
+  decide
+/-- an end pack with a numeric caller URL and no host: hash set, ServiceURL untouched -/
+example : (UdpTxEndPack.process 50100 (Rec.ofList [("Host", .str []), ("Uri", .str [47]), ("McallerUrl", .str [49, 50])]
+    UdpTxEndPack.clearedRec)).map (fun s => (s "McallerUrlHash", s "ServiceURL")) = some (.int 12, .null) := by decide
+
 /-! ### non-vacuity and concrete instances -/
 
 /-- "user=u;password=secret host=h" -/
@@ -222,7 +308,11 @@ example : processDbc 50100 (renderFlat ([117, 115, 101, 114], [117])
     [(59, (kwPassword, [115, 101, 99])), (32, ([104], [49]))])
     = [117, 115, 101, 114, 61, 117, 59] ++ kwPassword ++ [61, 35] := by decide
 
-example : PlainTok (kwPassword, [115, 101, 99]) := by unfold PlainTok Plain; decide
+example : PlainTok (kwPassword, [115, 101, 99]) := by unfold PlainTok; decide
+/-- `€é` (E2 82 AC C3 A9) is a plain value although it starts with a byte that can begin a white-space character -/
+example : Plain [226, 130, 172, 195, 169] := by decide
+/-- a value that starts with U+00A0 is not -/
+example : ¬ Plain [194, 160, 120] := by decide
 
 /-- a well-formed UdpTxEndPack at the newest Go version, into a cleared pack -/
 def exEnd : Rec := Rec.ofList
